@@ -49,7 +49,7 @@ Print Assumptions c41_any_has_semantics.
 
 (* the whole criterion language on P evaluates, inside any enclosing query, to its meaning (3VL) *)
 Theorem c41_criterion_meaning_guarded : forall d e pa p c,
-  lookup e pa = grow_p p -> pa <> sub_alias -> contains_ok d c = true ->
+  lookup e pa = grow_p p -> pa < sub_alias -> contains_ok d c = true ->
   beval d e (tr_pcrit d pa c) = peval d p c.
 Proof. exact pcrit_tr. Qed.
 Print Assumptions c41_criterion_meaning_guarded.
@@ -116,13 +116,19 @@ Theorem c41_self_referential_criterion_meaning : forall d e na n c,
 Proof. exact ncrit_tr. Qed.
 Print Assumptions c41_self_referential_criterion_meaning.
 
+(* the criteria on C: has(), == None on the many-to-one (IS NULL, negation IS NOT NULL), has(any()) nested *)
+Theorem c41_child_criterion_meaning : forall d e ca c k,
+  lookup e ca = grow_c c -> ca < sub_alias -> beval d e (tr_ccrit ca k) = ceval d c k.
+Proof. exact ccrit_tr. Qed.
+Print Assumptions c41_child_criterion_meaning.
+
 (* ---- non-vacuity ---- *)
 Definition ex_db : db :=
   {| ps := [ {| p_id := 1; p_x := Some 1%Z |}; {| p_id := 2; p_x := None |}; {| p_id := 3; p_x := Some 2%Z |} ];
      cs := [ {| c_id := 4; c_pid := Some 1%Z; c_y := Some 1%Z; c_kind := 0 |};
              {| c_id := 5; c_pid := Some 1%Z; c_y := Some 1%Z; c_kind := 1 |};
              {| c_id := 6; c_pid := Some 2%Z; c_y := None; c_kind := 1 |};
-             {| c_id := 9; c_pid := None; c_y := Some 1%Z; c_kind := 1 |} ]; ns := [] |}.
+             {| c_id := 9; c_pid := None; c_y := Some 1%Z; c_kind := 1 |} ]; ns := []; pn := [] |}.
 
 (* outer join to of_type(Sub): parent 3 (no children) and nobody else gets the None entity; parent 1 twice
    would be the same object *)
@@ -161,7 +167,7 @@ Definition ex_nodes : db :=
      ns := [ {| c_id := 1; c_pid := None; c_y := Some 7%Z; c_kind := 0 |};
              {| c_id := 2; c_pid := Some 1%Z; c_y := Some 8%Z; c_kind := 0 |};
              {| c_id := 3; c_pid := Some 2%Z; c_y := Some 7%Z; c_kind := 0 |};
-             {| c_id := 4; c_pid := None; c_y := Some 8%Z; c_kind := 0 |} ] |}.
+             {| c_id := 4; c_pid := None; c_y := Some 8%Z; c_kind := 0 |} ]; pn := [] |}.
 Example c41_ex_self_referential :
   core_exec ex_nodes (orm_to_core ex_nodes (QN (NAny (SCmp OEq 8)))) = [[Some 1%Z]] /\
   core_exec ex_nodes (orm_to_core ex_nodes (QN (NHas (SCmp OEq 7)))) = [[Some 2%Z]] /\
@@ -184,3 +190,25 @@ Example c41_ex_legacy_union_exists :
   orm_exec_sl wit_db3 wit_q3 1 None true = [] /\ orm_count_sl wit_db3 wit_q3 1 None = 0 /\
   orm_exists_sl wit_db3 wit_q3 1 None = false /\ orm_exists_sl wit_db3 wit_q3 0 None = true.
 Proof. repeat split; vm_compute; reflexivity. Qed.
+
+(* many-to-many P.tags <-> Node.holders over pn: parents 1 and 2 share tag 7, parent 3 has tag 8 only.
+   tags.any(holders.any(x = 5)) : a parent sharing a tag with a parent whose x is 5 -> parents 1 and 2 *)
+Definition ex_m2m : db :=
+  {| ps := [ {| p_id := 1; p_x := Some 5%Z |}; {| p_id := 2; p_x := Some 0%Z |}; {| p_id := 3; p_x := Some 0%Z |} ];
+     cs := [ {| c_id := 1; c_pid := Some 1%Z; c_y := Some 9%Z; c_kind := 0 |};
+             {| c_id := 2; c_pid := Some 1%Z; c_y := Some 0%Z; c_kind := 0 |};
+             {| c_id := 3; c_pid := None; c_y := Some 9%Z; c_kind := 0 |} ];
+     ns := [ {| c_id := 7; c_pid := None; c_y := Some 1%Z; c_kind := 0 |};
+             {| c_id := 8; c_pid := None; c_y := Some 2%Z; c_kind := 0 |} ];
+     pn := [ (1, 7); (2, 7); (3, 8) ]%Z |}.
+Example c41_ex_nested_m2m :
+  core_exec ex_m2m (orm_to_core ex_m2m (QP (PTagNested (SCmp OEq 5)))) = [[Some 1]; [Some 2]]%Z /\
+  meaning ex_m2m (QP (PTagAny (SCmp OEq 2))) = [[Some 3%Z]].
+Proof. split; vm_compute; reflexivity. Qed.
+
+(* != None on the many-to-one: children 1 and 2; union over C, then has(any(y = 9)) added after the union:
+   child 2 (y = 0) qualifies because its sibling 1 has y = 9 *)
+Example c41_ex_none_and_union :
+  meaning ex_m2m (QC (CNot CNoParent)) = [[Some 1]; [Some 2]]%Z /\
+  core_exec ex_m2m (orm_to_core ex_m2m (QUnionC (SCmp OEq 0) (SCmp OEq 9) (CHasAny (SCmp OEq 9)))) = [[Some 1]; [Some 2]]%Z.
+Proof. split; vm_compute; reflexivity. Qed.
